@@ -11,6 +11,7 @@ import Proofs.ArpaOKCheck
 import Proofs.ProbingRestFold
 import Proofs.ProbingRestScore
 import Proofs.ProbingRestChain
+import Proofs.ProbingRestChainSem
 import Properties.C03
 /-! C03/C01 — the probing *builder* inside the model (`Model/ProbingBuild.lean` = lm/search_hashed.cc ReadNGrams,
 FindLower, AdjustLower, MarkLower, activate, unigram sign fix, missing-`<unk>` fix-up).
@@ -26,9 +27,11 @@ for every proper loadable ARPA**: blank chains of any length over a basis of any
 `MaxRestBuild` (`rest = true`, REST_MAX), models without blanks: `probing_rest_build_represents_closed` (`RepresentsR` with
 `R := restOf a Sf` = C08's `maxRest`, `probing_rest_is_maxRest`), `probing_rest_refines` (the built structure answers like
 `KV.Left.restSearch T R`, the search C08's theorems are stated for) and `probing_rest_end_to_end_closed` (`FullScore.prob` =
-ARPA recursion, `FullScore.rest` = `restOf` of the longest match).  Blank chains under `MaxRestBuild`: loop lemmas and the
-operational part up to `AdjustLower` (`probing_rest_chain_adjust_partial`); the `MarkLower` tail and the key-level evaluation
-of `rest` on chains are open (differential check only).
+ARPA recursion, `FullScore.rest` = `restOf` of the longest match).  Blank chains under `MaxRestBuild`: the complete
+operational statement of a line incl. the `MarkLower` tail (`probing_rest_chain_line_partial`) and the key-level equality of
+all fields except `rest` (`probing_rest_chain_nonrest_partial`) are proved; OPEN: the `rest` field on chains
+(`w5T.rest = restOf` of the enlarged key set), hence `stepAllT` / `probing_rest_build_represents` without `ClsC`
+(differential check only for `RestProbingModel` on pruned models).
 Superseded, kept for the audit lists: `ProbingBuildRepresents` (def), `probing_end_to_end_partial`, `_closed`, `_blank1`,
 `_single`, `probing_chain_line_partial`. -/
 namespace KV.C03ProbingBuild
@@ -556,5 +559,31 @@ theorem probing_rest_chain_adjust_partial (combine : Nat → Word → Nat) (a : 
         (applyUpd (applyUpd want1 (fillUsT want1 p L b (-(want1 (p.take b)).mag)))
           (markUsT (applyUpd want1 (fillUsT want1 p L b (-(want1 (p.take b)).mag))) (chainKeys p b L) (lineW e).rest)) :=
   addLine_chainT_adjust combine a u0 N caps S s want0 h si p e lc b L hb hL hpl hbasis hmiss hcapn hcapj
+
+/-- **`probing_rest_chain_line_partial`** — a line with a blank chain of any length under `MaxRestBuild`, complete operational
+statement: from any state satisfying the `MaxRestBuild` invariant `InvT`, `addLine … true` (insertion, `FindLower`,
+`AdjustLower`, **`MarkLower` below the basis**, `activate`) returns `.ok`, appends the `L` blanks and the line, and leaves the
+explicit payload function `w5T` in every table and the unigram array.  `MarkLower` is discharged by `markLower_chain`: the
+prefixes below the basis are untouched by `AdjustLower` (`CH.w3_low`), their `rest` is monotone (`restOf_mono`) and their
+sign bits are clear. -/
+theorem probing_rest_chain_line_partial {combine : Nat → Word → Nat} {a : Arpa} {nWords : Nat} {um : Rat} {caps : Nat → Nat}
+    {S : List Key} {p : Key} {e : Entry} {b L : Nat} (ch : CH combine a nWords um caps S p e b L) (s : St)
+    (h : InvT combine a nWords caps S s) :
+    ∃ s5 Ks', addLine combine true a.order s p e = .ok s5 ∧
+      (∀ m, Ks' m = if b < m ∧ m ≤ b + L then keysOf (S ++ [p]) m ++ [p.take m] else keysOf (S ++ [p]) m) ∧
+      StP combine a.order caps (initUni a nWords).length s5 Ks' (w5T a (initUni a nWords) S p e b L) :=
+  addLine_chainT ch s h
+
+/-- **`probing_rest_chain_nonrest_partial`** — … and on every stored key and every unigram all fields of `w5T` except `rest`
+(probability, back-off, sign bit, extension bit) are the ones prescribed for the enlarged key set, i.e. exactly what
+`probing_build_represents` needs (`er` forgets `rest`; transfer from the `NoRestBuild` run by `applyUpd_er`).
+Open: `(w5T … k).rest = restOf a (addLineKeys S p) k` on chains (new blank: maximum of `val` over the chain above it; basis
+and the prefixes below it: max(old `restOf`, that maximum)), hence `stepAllT` and `probing_rest_build_represents` without
+`ClsC`. -/
+theorem probing_rest_chain_nonrest_partial {combine : Nat → Word → Nat} {a : Arpa} {nWords : Nat} {um : Rat} {caps : Nat → Nat}
+    {S : List Key} {p : Key} {e : Entry} {b L : Nat} (ch : CH combine a nWords um caps S p e b L) (k : Key)
+    (hk : k ∈ addLineKeys S p ∨ k.length = 1) :
+    er (w5T a (initUni a nWords) S p e b L k) = er (wantAll a (initUni a nWords) (addLineKeys S p) k) :=
+  ch.w5_nonrest k hk
 
 end KV.C03ProbingBuild
